@@ -251,6 +251,8 @@ def search(ctx):
 
 
 def replay(ctx, data):
+    if "input" not in data:
+        return appcheck.replay_nofail(ctx, data, run)
     sc = data["input"]
     sub = common.Ctx(ctx.prop, "quick", ctx.seed)
     if sc.get("kind") == "ka":
